@@ -24,13 +24,15 @@ class HalfAndHalfInitializer(PopulationInitializer):
         **kwargs,
     ) -> Iterator[Individual]:
         mid = target_size // 2
-        yield from self.initializer1(problem, representation, random, mid)
-        yield from self.initializer2(
-            problem,
-            representation,
-            random,
-            target_size - mid,
-        )
+        yield from self.run(self.initializer1, problem, representation, random, mid)
+        yield from self.run(self.initializer2, problem, representation, random, target_size - mid)
+
+    @staticmethod
+    def run(initializer, problem: Problem, representation: Representation, random: RandomSource, size: int):
+        """An initializer is given as a PopulationInitializer, or as the initialize method of one."""
+        if isinstance(initializer, PopulationInitializer):
+            return initializer.initialize(problem, representation, random, size)
+        return initializer(problem, representation, random, size)
 
 
 class StandardInitializer(PopulationInitializer):
